@@ -13,4 +13,92 @@ namespace Romea.Hidden.C20
 
 theorem hidden_state_as_recorded : Romea.Generated.C20.hiddenState = [] := by rfl
 
+/-- The names (not only the types) of what every translated function reads, carries through its loops and returns are those
+    the bridge theorems were written against: a function that now reads or writes ANOTHER member of the same type keeps its Lean
+    type, and a positional application in a bridge would keep checking. -/
+theorem signatures_as_recorded : Romea.Generated.C20.signatures = [
+    "Interval.include_d2 (interval_lower__0 interval_lower__1 interval_upper__0 interval_upper__1 lower__0 lower__1 upper__0 upper__1) result: lower__0', lower__1', upper__0', upper__1'",
+    "Interval.inside_d2 (lower__0 lower__1 upper__0 upper__1 val_0 val_1) result: ret",
+    "Interval.center (lower__0 lower__1 upper__0 upper__1) result: ret_0, ret_1",
+    "Interval.width (lower__0 lower__1 upper__0 upper__1) result: ret_0, ret_1",
+    "AxisAlignedBoundingBox.AxisAlignedBoundingBox_interval_d2 (extremities_lower__0 extremities_lower__1 extremities_upper__0 extremities_upper__1) result: centerPosition__0', centerPosition__1', halfWidthExtents__0', halfWidthExtents__1'",
+    "Interval.Interval (lower_0 lower_1 upper_0 upper_1) result: lower__0', lower__1', upper__0', upper__1'",
+    "AxisAlignedBoundingBox.toInterval_d2 (centerPosition__0 centerPosition__1 halfWidthExtents__0 halfWidthExtents__1) result: ret_lower__0, ret_lower__1, ret_upper__0, ret_upper__1",
+    "AxisAlignedBoundingBox.isInside_d2 (centerPosition__0 centerPosition__1 halfWidthExtents__0 halfWidthExtents__1 point_0 point_1) result: ret",
+    "OrientedBoundingBox.isInside_d2 (aabb__centerPosition__0 aabb__centerPosition__1 aabb__halfWidthExtents__0 aabb__halfWidthExtents__1 point_0 point_1 rotation__0_0 rotation__0_1 rotation__1_0 rotation__1_1) result: ret",
+    "AxisAlignedBoundingBox.AxisAlignedBoundingBox (centerPosition_0 centerPosition_1 halfWidthExtents_0 halfWidthExtents_1) result: centerPosition__0', centerPosition__1', halfWidthExtents__0', halfWidthExtents__1'",
+    "OrientedBoundingBox.toAxisAlignedBoundingBox_d2 (aabb__centerPosition__0 aabb__centerPosition__1 aabb__halfWidthExtents__0 aabb__halfWidthExtents__1 rotation__0_0 rotation__0_1 rotation__1_0 rotation__1_1) result: ret_centerPosition__0, ret_centerPosition__1, ret_halfWidthExtents__0, ret_halfWidthExtents__1",
+    "Interval.include_d3 (interval_lower__0 interval_lower__1 interval_lower__2 interval_upper__0 interval_upper__1 interval_upper__2 lower__0 lower__1 lower__2 upper__0 upper__1 upper__2) result: lower__0', lower__1', lower__2', upper__0', upper__1', upper__2'",
+    "Interval.inside_d3 (lower__0 lower__1 lower__2 upper__0 upper__1 upper__2 val_0 val_1 val_2) result: ret",
+    "Interval.center_2 (lower__0 lower__1 lower__2 upper__0 upper__1 upper__2) result: ret_0, ret_1, ret_2",
+    "Interval.width_2 (lower__0 lower__1 lower__2 upper__0 upper__1 upper__2) result: ret_0, ret_1, ret_2",
+    "AxisAlignedBoundingBox.AxisAlignedBoundingBox_interval_d3 (extremities_lower__0 extremities_lower__1 extremities_lower__2 extremities_upper__0 extremities_upper__1 extremities_upper__2) result: centerPosition__0', centerPosition__1', centerPosition__2', halfWidthExtents__0', halfWidthExtents__1', halfWidthExtents__2'",
+    "Interval.Interval_2 (lower_0 lower_1 lower_2 upper_0 upper_1 upper_2) result: lower__0', lower__1', lower__2', upper__0', upper__1', upper__2'",
+    "AxisAlignedBoundingBox.toInterval_d3 (centerPosition__0 centerPosition__1 centerPosition__2 halfWidthExtents__0 halfWidthExtents__1 halfWidthExtents__2) result: ret_lower__0, ret_lower__1, ret_lower__2, ret_upper__0, ret_upper__1, ret_upper__2",
+    "AxisAlignedBoundingBox.isInside_d3 (centerPosition__0 centerPosition__1 centerPosition__2 halfWidthExtents__0 halfWidthExtents__1 halfWidthExtents__2 point_0 point_1 point_2) result: ret",
+    "OrientedBoundingBox.isInside_d3 (aabb__centerPosition__0 aabb__centerPosition__1 aabb__centerPosition__2 aabb__halfWidthExtents__0 aabb__halfWidthExtents__1 aabb__halfWidthExtents__2 point_0 point_1 point_2 rotation__0_0 rotation__0_1 rotation__0_2 rotation__1_0 rotation__1_1 rotation__1_2 rotation__2_0 rotation__2_1 rotation__2_2) result: ret",
+    "AxisAlignedBoundingBox.AxisAlignedBoundingBox_2 (centerPosition_0 centerPosition_1 centerPosition_2 halfWidthExtents_0 halfWidthExtents_1 halfWidthExtents_2) result: centerPosition__0', centerPosition__1', centerPosition__2', halfWidthExtents__0', halfWidthExtents__1', halfWidthExtents__2'",
+    "OrientedBoundingBox.toAxisAlignedBoundingBox_d3 (aabb__centerPosition__0 aabb__centerPosition__1 aabb__centerPosition__2 aabb__halfWidthExtents__0 aabb__halfWidthExtents__1 aabb__halfWidthExtents__2 rotation__0_0 rotation__0_1 rotation__0_2 rotation__1_0 rotation__1_1 rotation__1_2 rotation__2_0 rotation__2_1 rotation__2_2) result: ret_centerPosition__0, ret_centerPosition__1, ret_centerPosition__2, ret_halfWidthExtents__0, ret_halfWidthExtents__1, ret_halfWidthExtents__2",
+    "Interval.include_f2 (interval_lower__0 interval_lower__1 interval_upper__0 interval_upper__1 lower__0 lower__1 upper__0 upper__1) result: lower__0', lower__1', upper__0', upper__1'",
+    "Interval.inside_f2 (lower__0 lower__1 upper__0 upper__1 val_0 val_1) result: ret",
+    "Interval.center_f32 (lower__0 lower__1 upper__0 upper__1) result: ret_0, ret_1",
+    "Interval.width_f32 (lower__0 lower__1 upper__0 upper__1) result: ret_0, ret_1",
+    "AxisAlignedBoundingBox.AxisAlignedBoundingBox_interval_f2 (extremities_lower__0 extremities_lower__1 extremities_upper__0 extremities_upper__1) result: centerPosition__0', centerPosition__1', halfWidthExtents__0', halfWidthExtents__1'",
+    "Interval.Interval_f32 (lower_0 lower_1 upper_0 upper_1) result: lower__0', lower__1', upper__0', upper__1'",
+    "AxisAlignedBoundingBox.toInterval_f2 (centerPosition__0 centerPosition__1 halfWidthExtents__0 halfWidthExtents__1) result: ret_lower__0, ret_lower__1, ret_upper__0, ret_upper__1",
+    "AxisAlignedBoundingBox.isInside_f2 (centerPosition__0 centerPosition__1 halfWidthExtents__0 halfWidthExtents__1 point_0 point_1) result: ret",
+    "OrientedBoundingBox.isInside_f2 (aabb__centerPosition__0 aabb__centerPosition__1 aabb__halfWidthExtents__0 aabb__halfWidthExtents__1 point_0 point_1 rotation__0_0 rotation__0_1 rotation__1_0 rotation__1_1) result: ret",
+    "AxisAlignedBoundingBox.AxisAlignedBoundingBox_f32 (centerPosition_0 centerPosition_1 halfWidthExtents_0 halfWidthExtents_1) result: centerPosition__0', centerPosition__1', halfWidthExtents__0', halfWidthExtents__1'",
+    "OrientedBoundingBox.toAxisAlignedBoundingBox_f2 (aabb__centerPosition__0 aabb__centerPosition__1 aabb__halfWidthExtents__0 aabb__halfWidthExtents__1 rotation__0_0 rotation__0_1 rotation__1_0 rotation__1_1) result: ret_centerPosition__0, ret_centerPosition__1, ret_halfWidthExtents__0, ret_halfWidthExtents__1",
+    "Interval.include_f3 (interval_lower__0 interval_lower__1 interval_lower__2 interval_upper__0 interval_upper__1 interval_upper__2 lower__0 lower__1 lower__2 upper__0 upper__1 upper__2) result: lower__0', lower__1', lower__2', upper__0', upper__1', upper__2'",
+    "Interval.inside_f3 (lower__0 lower__1 lower__2 upper__0 upper__1 upper__2 val_0 val_1 val_2) result: ret",
+    "Interval.center_f32_2 (lower__0 lower__1 lower__2 upper__0 upper__1 upper__2) result: ret_0, ret_1, ret_2",
+    "Interval.width_f32_2 (lower__0 lower__1 lower__2 upper__0 upper__1 upper__2) result: ret_0, ret_1, ret_2",
+    "AxisAlignedBoundingBox.AxisAlignedBoundingBox_interval_f3 (extremities_lower__0 extremities_lower__1 extremities_lower__2 extremities_upper__0 extremities_upper__1 extremities_upper__2) result: centerPosition__0', centerPosition__1', centerPosition__2', halfWidthExtents__0', halfWidthExtents__1', halfWidthExtents__2'",
+    "Interval.Interval_f32_2 (lower_0 lower_1 lower_2 upper_0 upper_1 upper_2) result: lower__0', lower__1', lower__2', upper__0', upper__1', upper__2'",
+    "AxisAlignedBoundingBox.toInterval_f3 (centerPosition__0 centerPosition__1 centerPosition__2 halfWidthExtents__0 halfWidthExtents__1 halfWidthExtents__2) result: ret_lower__0, ret_lower__1, ret_lower__2, ret_upper__0, ret_upper__1, ret_upper__2",
+    "AxisAlignedBoundingBox.isInside_f3 (centerPosition__0 centerPosition__1 centerPosition__2 halfWidthExtents__0 halfWidthExtents__1 halfWidthExtents__2 point_0 point_1 point_2) result: ret",
+    "OrientedBoundingBox.isInside_f3 (aabb__centerPosition__0 aabb__centerPosition__1 aabb__centerPosition__2 aabb__halfWidthExtents__0 aabb__halfWidthExtents__1 aabb__halfWidthExtents__2 point_0 point_1 point_2 rotation__0_0 rotation__0_1 rotation__0_2 rotation__1_0 rotation__1_1 rotation__1_2 rotation__2_0 rotation__2_1 rotation__2_2) result: ret",
+    "AxisAlignedBoundingBox.AxisAlignedBoundingBox_f32_2 (centerPosition_0 centerPosition_1 centerPosition_2 halfWidthExtents_0 halfWidthExtents_1 halfWidthExtents_2) result: centerPosition__0', centerPosition__1', centerPosition__2', halfWidthExtents__0', halfWidthExtents__1', halfWidthExtents__2'",
+    "OrientedBoundingBox.toAxisAlignedBoundingBox_f3 (aabb__centerPosition__0 aabb__centerPosition__1 aabb__centerPosition__2 aabb__halfWidthExtents__0 aabb__halfWidthExtents__1 aabb__halfWidthExtents__2 rotation__0_0 rotation__0_1 rotation__0_2 rotation__1_0 rotation__1_1 rotation__1_2 rotation__2_0 rotation__2_1 rotation__2_2) result: ret_centerPosition__0, ret_centerPosition__1, ret_centerPosition__2, ret_halfWidthExtents__0, ret_halfWidthExtents__1, ret_halfWidthExtents__2",
+    "Interval.lower (lower_) result: ret",
+    "Interval.upper (upper_) result: ret",
+    "Interval.include_d1 (interval_lower_ interval_upper_ lower_ upper_) result: lower_', upper_'",
+    "Interval.inside_d1 (lower_ upper_ val) result: ret",
+    "vecGet? (v i)",
+    "PointSetPreconditioner.compute_2d.loop1 (N points) carried: n, pointSetMax__0, pointSetMax__1, pointSetMean__0, pointSetMean__1, pointSetMin__0, pointSetMin__1",
+    "PointSetPreconditioner.compute_2d (points) result: pointSetMax__0', pointSetMax__1', pointSetMean__0', pointSetMean__1', pointSetMin__0', pointSetMin__1', scale_', translation__0', translation__1' (none = a partial operation failed: index outside a vector)",
+    "PointSetPreconditioner.compute_3d.loop1 (N points) carried: n, pointSetMax__0, pointSetMax__1, pointSetMax__2, pointSetMean__0, pointSetMean__1, pointSetMean__2, pointSetMin__0, pointSetMin__1, pointSetMin__2",
+    "PointSetPreconditioner.compute_3d (points) result: pointSetMax__0', pointSetMax__1', pointSetMax__2', pointSetMean__0', pointSetMean__1', pointSetMean__2', pointSetMin__0', pointSetMin__1', pointSetMin__2', scale_', translation__0', translation__1', translation__2' (none = a partial operation failed: index outside a vector)",
+    "PointSetPreconditioner.compute_2f.loop1 (N points) carried: n, pointSetMax__0, pointSetMax__1, pointSetMean__0, pointSetMean__1, pointSetMin__0, pointSetMin__1",
+    "PointSetPreconditioner.compute_2f (points) result: pointSetMax__0', pointSetMax__1', pointSetMean__0', pointSetMean__1', pointSetMin__0', pointSetMin__1', scale_', translation__0', translation__1' (none = a partial operation failed: index outside a vector)",
+    "PointSetPreconditioner.compute_3f.loop1 (N points) carried: n, pointSetMax__0, pointSetMax__1, pointSetMax__2, pointSetMean__0, pointSetMean__1, pointSetMean__2, pointSetMin__0, pointSetMin__1, pointSetMin__2",
+    "PointSetPreconditioner.compute_3f (points) result: pointSetMax__0', pointSetMax__1', pointSetMax__2', pointSetMean__0', pointSetMean__1', pointSetMean__2', pointSetMin__0', pointSetMin__1', pointSetMin__2', scale_', translation__0', translation__1', translation__2' (none = a partial operation failed: index outside a vector)",
+    "PointSetPreconditioner.compute_h2d.loop1 (N points) carried: n, pointSetMax__0, pointSetMax__1, pointSetMax__2, pointSetMean__0, pointSetMean__1, pointSetMean__2, pointSetMin__0, pointSetMin__1, pointSetMin__2",
+    "PointSetPreconditioner.compute_h2d (points) result: pointSetMax__0', pointSetMax__1', pointSetMax__2', pointSetMean__0', pointSetMean__1', pointSetMean__2', pointSetMin__0', pointSetMin__1', pointSetMin__2', scale_', translation__0', translation__1' (none = a partial operation failed: index outside a vector)",
+    "PointSetPreconditioner.compute_h3d.loop1 (N points) carried: n, pointSetMax__0, pointSetMax__1, pointSetMax__2, pointSetMax__3, pointSetMean__0, pointSetMean__1, pointSetMean__2, pointSetMean__3, pointSetMin__0, pointSetMin__1, pointSetMin__2, pointSetMin__3",
+    "PointSetPreconditioner.compute_h3d (points) result: pointSetMax__0', pointSetMax__1', pointSetMax__2', pointSetMax__3', pointSetMean__0', pointSetMean__1', pointSetMean__2', pointSetMean__3', pointSetMin__0', pointSetMin__1', pointSetMin__2', pointSetMin__3', scale_', translation__0', translation__1', translation__2' (none = a partial operation failed: index outside a vector)",
+    "PointSetPreconditioner.compute_h2f.loop1 (N points) carried: n, pointSetMax__0, pointSetMax__1, pointSetMax__2, pointSetMean__0, pointSetMean__1, pointSetMean__2, pointSetMin__0, pointSetMin__1, pointSetMin__2",
+    "PointSetPreconditioner.compute_h2f (points) result: pointSetMax__0', pointSetMax__1', pointSetMax__2', pointSetMean__0', pointSetMean__1', pointSetMean__2', pointSetMin__0', pointSetMin__1', pointSetMin__2', scale_', translation__0', translation__1' (none = a partial operation failed: index outside a vector)",
+    "PointSetPreconditioner.compute_h3f.loop1 (N points) carried: n, pointSetMax__0, pointSetMax__1, pointSetMax__2, pointSetMax__3, pointSetMean__0, pointSetMean__1, pointSetMean__2, pointSetMean__3, pointSetMin__0, pointSetMin__1, pointSetMin__2, pointSetMin__3",
+    "PointSetPreconditioner.compute_h3f (points) result: pointSetMax__0', pointSetMax__1', pointSetMax__2', pointSetMax__3', pointSetMean__0', pointSetMean__1', pointSetMean__2', pointSetMean__3', pointSetMin__0', pointSetMin__1', pointSetMin__2', pointSetMin__3', scale_', translation__0', translation__1', translation__2' (none = a partial operation failed: index outside a vector)",
+    "min_a2d.loop1 () carried: minimalCoordinates_0, minimalCoordinates_1",
+    "min_a2d (points) result: ret_0, ret_1",
+    "max_a2d.loop1 () carried: maximalCoordinates_0, maximalCoordinates_1",
+    "max_a2d (points) result: ret_0, ret_1",
+    "mean_v2d.loop1 () carried: meanCoordinates_0, meanCoordinates_1",
+    "mean_v2d (points) result: ret_0, ret_1",
+    "min_a3d.loop1 () carried: minimalCoordinates_0, minimalCoordinates_1, minimalCoordinates_2",
+    "min_a3d (points) result: ret_0, ret_1, ret_2",
+    "max_a3d.loop1 () carried: maximalCoordinates_0, maximalCoordinates_1, maximalCoordinates_2",
+    "max_a3d (points) result: ret_0, ret_1, ret_2",
+    "mean_v3d.loop1 () carried: meanCoordinates_0, meanCoordinates_1, meanCoordinates_2",
+    "mean_v3d (points) result: ret_0, ret_1, ret_2",
+    "min_a3f.loop1 () carried: minimalCoordinates_0, minimalCoordinates_1, minimalCoordinates_2",
+    "min_a3f (points) result: ret_0, ret_1, ret_2",
+    "max_a3f.loop1 () carried: maximalCoordinates_0, maximalCoordinates_1, maximalCoordinates_2",
+    "max_a3f (points) result: ret_0, ret_1, ret_2",
+    "mean_v3f.loop1 () carried: meanCoordinates_0, meanCoordinates_1, meanCoordinates_2",
+    "mean_v3f (points) result: ret_0, ret_1, ret_2"] := by rfl
+
 end Romea.Hidden.C20
